@@ -104,6 +104,7 @@ type ledgerInst struct {
 	runnerDead  bool
 	writeFailed bool
 	writeCalls  int
+	closing     bool // Commander.Close() has been called by a shutdown task
 	runnerTask  *Task
 }
 
@@ -309,6 +310,14 @@ func (s *Sim) root() {
 				if li.runnerDead {
 					died = true
 				}
+			}
+			if g.shutdownDone && !died && !g.bootFail {
+				s.sched.Logf("step %d: shutdown complete gen=%d", s.sched.step, g.Idx)
+				s.kill(g, true)
+				if !s.nextGeneration() {
+					break
+				}
+				continue
 			}
 			if died || g.bootFail {
 				s.sched.Logf("step %d: process death (runner or boot failure) gen=%d", s.sched.step, g.Idx)
@@ -540,7 +549,7 @@ func (s *Sim) kill(g *Generation, crashed bool) {
 		}
 	}
 	for _, li := range g.ledgers {
-		if li.running && !li.runnerDead {
+		if li.running && !li.runnerDead && !li.closing {
 			quiesce()
 			if li.runnerDead {
 				continue
@@ -609,6 +618,28 @@ func (s *Sim) applyFault(f Fault, ps []*Task) bool {
 		s.kill(g, true)
 		s.nextGeneration()
 		return s.cur != nil
+	case "shutdown":
+		// Orderly stop while requests may be in flight: Commander.Close() runs as a task of its
+		// own (it waits for the batch worker, which the scheduler must keep serving); when it
+		// has returned the process is gone.
+		g := s.cur
+		if g.shutdown {
+			return true
+		}
+		g.shutdown = true
+		s.sched.Logf("step %d: FAULT shutdown gen=%d", s.sched.step, g.Idx)
+		s.count("fault.shutdown")
+		s.classifyCrashWindow(ps)
+		s.sched.spawn(g.ctx, g, fmt.Sprintf("g%d.shutdown", g.Idx), func(ctx context.Context, t *Task) {
+			for _, li := range g.ledgers {
+				if li.running && !li.runnerDead && !g.dead.Load() {
+					li.closing = true
+					li.commander.Close()
+				}
+			}
+			g.shutdownDone = true
+		})
+		return true
 	case "clock":
 		d := time.Duration(f.Arg) * time.Microsecond
 		if d <= 0 {
@@ -920,6 +951,9 @@ func (s *Sim) execOp(ctx context.Context, rec *OpRecord, li *ledgerInst) {
 			Timestamp: ts,
 			Metadata:  metadata.Metadata{"req": rec.Marker},
 			Reference: op.Ref,
+		}
+		if op.Value != "" {
+			rs.Metadata["m"] = op.Value
 		}
 		rec.Script = cloneScript(&rs)
 		rec.Tx, rec.Err = li.commander.CreateTransaction(ctx, params, rs)
